@@ -100,6 +100,17 @@ CHECKS = {
         design_ref="DESIGN.md §5 C08, §3 E4", note=STATIC_NOTE + " Assumes dict iteration order is content (insertion order) and that glyph-class "
              "literals / coverage sets are order-neutral sinks.",
         technique="static analysis: set-kind inference + order-observation site classification with linked sanitiser obligations, nondeterminism-source whitelist, save/restore pairing in try/finally, shared-state mutation scan, ownership analysis"),
+    "C05": dict(
+        text="Static structural clauses of both kern writers: KerningPair ordering key (class-ness before names, same on both operands); every "
+             "bucket sorted with the plain ordering before return and rules emitted one per pair in bucket order; value-record table of both "
+             "pair-pos builders (xAdvance always, xPlacement iff rtl, enumerated = xor, sides/class tables not swapped, keywords exist in "
+             "fontTools); every value reaching a KerningPair passes quantize(., options.quantization), variable values resolved with "
+             "fontTools' lookupKerningValue per source, splitters copy the value unchanged, quantize = factor*otRound(n/factor); zero "
+             "drop only for class-class; rtl flag formula and exclusion of ambiguous-bidi pairs; missing-glyph skips on both sides and "
+             "v1/v2 sibling agreement; one bucket per split part (merge re-assignment breaks after the first match). What a shaper applies, "
+             "and that common and script lookups never hold the same glyph pair, are not decided.",
+        design_ref="DESIGN.md §5 C05", note=STATIC_NOTE,
+        technique="static analysis: reaching-definition value-flow (quantize sanitiser), keyword/role tables checked against parsed fontTools signatures, guard facts, sibling agreement, loop-shape rules"),
 }
 
 _TODO = "check not built yet in this session (static rules designed in DESIGN.md §5; will be claimed when the rule set is armed)"
